@@ -234,8 +234,10 @@ theorem update_refines (items : List (Path × Entry)) (kids : Kids) :
       ∀ op, InScope t op → step t op ≈ dstep t op      with `dstep` defined for all thirteen operations.
     Proved here for set / del / pop / rename_key_ / setdefault / clear / empty / unflatten_keys (in place and out of
     place) / flatten_keys (out of place) / exclude (in place and out of place) / update.
-    (`InScope` is `False` for select, flatten_keys in place, split_keys: their
-    transcriptions are tied to the code by the correspondence run and judged by the Python dict oracle). -/
+    (`InScope` is `False` for select, flatten_keys in place, split_keys: their transcriptions are tied to the code by
+    the correspondence run and judged by the Python dict oracle; select is characterised separately by
+    `select_leaves_exact` / `select_inplace_agrees`, which speak about leaves rather than about the whole state because a
+    non-strict select keeps empty nested tensordicts for keys whose tails are all missing). -/
 theorem refines_partial (kids : Kids) (hw : WF (.node kids)) (op : Op) (hs : InScope (.node kids) op) :
     (step (.node kids) op).1 = (dstep (.node kids) op).1 ∧
     (step (.node kids) op).2.erase = (dstep (.node kids) op).2.erase := by
@@ -406,6 +408,32 @@ example : ScopeAll (.node []) [.set ["a", "b"] (.leaf false 1), .rename ["a", "b
   simp [ScopeAll, InScope, dstep, specSet, specRename, C04.insert, dget, dset, lookup, has, remove, ddel, throughNt]
   exact WF.leaf _ _
 
+/-- `select(*keys)` (repaired: union semantics) — whenever the call succeeds, out of place or in place, strict or not:
+the leaves of the result are EXACTLY the leaves of the receiver that sit at or below one of the keys, with their values
+(keys that are prefixes of one another, repeated keys, keys through missing entries included). -/
+theorem select_leaves_exact (keys : List Path) (strict inplace : Bool) (kids : Kids) (hk : ∀ p ∈ keys, p ≠ [])
+    (r : Entry) (h : (selectF (maxLen keys + 1) keys strict inplace (.node kids)).2 = .ok r) :
+    ∃ rk, r = .node rk ∧ SelectsLeaves keys kids rk := by
+  have hio := (selectF_inplace (maxLen keys + 1) keys strict (.node kids)).1
+  have h' : (selectF (maxLen keys + 1) keys strict false (.node kids)).2 = .ok r := by
+    cases inplace with
+    | false => exact h
+    | true => rw [← hio]; exact h
+  exact select_leaves (maxLen keys) keys strict kids r (fun p hp => ⟨hk p hp, le_maxLen hp⟩) h'
+
+/-- in place and out of place compute the same selection; a successful `select(inplace=True)` leaves the receiver equal to
+that selection, `select(inplace=False)` never touches the receiver (the partial pruning of a *raising* in-place call is the
+known finding below). -/
+theorem select_inplace_agrees (keys : List Path) (strict : Bool) (t : Entry) (n : Nat) :
+    (selectF n keys strict true t).2 = (selectF n keys strict false t).2 ∧
+    (∀ r, (selectF n keys strict true t).2 = .ok r → (selectF n keys strict true t).1 = r) ∧
+    (selectF n keys strict false t).1 = t :=
+  selectF_inplace n keys strict t
+
+example : (selectF 3 [["a"], ["a", "b"]] true false (.node [("a", .node [("b", .leaf false 1), ("c", .leaf false 2)]), ("d", .leaf false 3)])).2
+    = .ok (.node [("a", .node [("b", .leaf false 1), ("c", .leaf false 2)])]) := by
+  simp [selectF, selectScan, selectGroups, groupAdd, dget, dset]
+
 /-- KNOWN FINDING C04-select-inplace-not-atomic (negation witness, replayed on the implementation by the
 check): a raising `select(("a","x"), ("b","missing"), inplace=True)` has already pruned `("a","y")`.
 FULL STATEMENT that is false of the code: `(selectT keys strict true t).2 = .err e → (selectT keys strict true t).1 = t`. -/
@@ -414,7 +442,7 @@ theorem select_inplace_atomic_counterexample :
     (∃ e, (selectT [["a", "x"], ["b", "missing"]] true true t).2 = .err e) ∧
     lookup ["a", "y"] (selectT [["a", "x"], ["b", "missing"]] true true t).1 = none ∧
     lookup ["a", "y"] t = some (.leaf false 2) := by
-  simp [selectT, maxLen, selectF, selectF.groups, selectScan, groupAdd, dget, dset, lookup]
+  simp [selectT, maxLen, selectF, selectGroups, selectScan, groupAdd, dget, dset, lookup]
 
 /-! ## §4b flatten_keys -/
 
